@@ -427,8 +427,9 @@ def to_source2(prog):
     p = Printer2()
     body = p.nodes(prog)
     cs = ML.counters_used(prog)
-    pre = ''.join('\\newcounter{%s}' % ML.cntname(c) for c in cs) + ''.join(p.pre) + ('\\newcommand{\\zpfx}{zq}' if p.usepfx else '')
-    tail = 'Q' + ''.join('\\arabic{%s}Q' % ML.cntname(c) for c in cs)
+    pre = (''.join(('\\newcount\\%s ' % ML.regname(c)) if ML.is_reg(c) else ('\\newcounter{%s}' % ML.cntname(c)) for c in cs) + ML.REG_SCRATCH(cs) + ''.join(p.pre)
+           + ('\\newcommand{\\zpfx}{zq}' if p.usepfx else ''))
+    tail = 'Q' + ''.join(('\\number\\%s Q' % ML.regname(c)) if ML.is_reg(c) else ('\\arabic{%s}Q' % ML.cntname(c)) for c in cs)
     return pre + body + tail, cs
 
 
@@ -489,7 +490,7 @@ def engine_streams(rng, tier, boost):
         out.append(('engine-soup', dict(kind='engine', toks=toks, names=[n for n in EL.names_in(toks) if n not in EL.PRIMS], cnames=['a', 'b', 'c', 'ab'])))
     for _ in range((300 if q else 3000) * boost):
         f1 = rng.random() < 0.5
-        out.append(('print', dict(kind='print', prog=EL.gen_prog(rng, f1_only=f1, max_params=rng.choice([3, 9]), delims=False, allow_nested=False))))
+        out.append(('print', dict(kind='print', prog=EL.gen_prog(rng, f1_only=f1, max_params=rng.choice([3, 9]), delims=False, allow_nested=not f1))))
     for toks in EL.all_small(2 if q else 3):
         out.append(('engine-small', dict(kind='engine', toks=toks, names=[n for n in EL.names_in(toks) if n not in EL.PRIMS])))
     return out
@@ -664,14 +665,16 @@ def nontrivial(case, io):
 def tags(case, io):
     t = [case['kind']]
     if case['kind'] == 'print':
-        return t + ['print:F1' if EL.in_f1(case['prog']) else ('print:F2' if EL.in_f2(case['prog']) else 'print:beyond-F2')]
+        return t + ['print:F1' if EL.in_f1(case['prog']) else (('print:F3-nested' if EL.has_nested_def(case['prog']) else 'print:F2') if EL.in_f2(case['prog']) else 'print:beyond-F3')]
     if case['kind'] == 'engine':
         if isinstance(io, list) and io[:1] == [-2]:
             t.append('engine:impl-raises')
         if isinstance(io, list) and io[:1] == ['skip']:
             t.append('engine:skipped')
         if case.get('prog') is not None:
-            t.append('engine:F1' if EL.in_f1(case['prog']) else ('engine:F2' if EL.in_f2(case['prog']) else 'engine:beyond-F2'))
+            if EL.has_expandafter(case['prog']):
+                t.append('engine:expandafter' + ('' if EL.in_f2(case['prog']) else '-beyond-F3'))
+            t.append('engine:F1' if EL.in_f1(case['prog']) else (('engine:F3-nested' if EL.has_nested_def(case['prog']) else 'engine:F2') if EL.in_f2(case['prog']) else 'engine:beyond-F3'))
         return t
     if case['kind'] == 'def':
         t.append('params=%d' % sum(1 for x in case['args'] if x == HASH))
